@@ -609,9 +609,12 @@ func (ex *Exec) ropeLen(r *Rope) *Term {
 		case *Term:
 			total = tIntAdd(total, tStrLen(x))
 		case *JNode:
-			l := ex.fresh("jlen", SInt)
-			ex.assume(tIntCmp(">=", l, mkInt(1)))
-			total = tIntAdd(total, l)
+			// one length variable per JSON text (its exact value is not modelled, only >= 1)
+			if x.lenVar == nil {
+				x.lenVar = ex.fresh("jlen", SInt)
+				ex.assume(tIntCmp(">=", x.lenVar, mkInt(1)))
+			}
+			total = tIntAdd(total, x.lenVar)
 		}
 	}
 	return total
